@@ -147,6 +147,14 @@ class SocWorld(World):
                 tree, saw = self._gen_csr_tree(rng, cw, 0, 8 if depth == 0 else 6)
                 saw = max(saw, log2(ratio), 1)
                 tree["aw"] = saw
+                if ratio >= 4 and rng.chance(0.08):
+                    # a CSR bus smaller than one Wishbone word: the bridge refuses it (the item is
+                    # then skipped); should it ever be accepted, the map must still tell the truth
+                    tree = {"t": "dec", "aw": 1, "al": 0, "subs": [
+                        {"node": {"t": "evmon", "n": rng.range(1, cw), "al": 0,
+                                  "trig": [rng.choice(TRIGGERS) for _ in range(4)]},
+                         "name": "tiny", "addr_sel": None}]}
+                    saw = log2(ratio)
                 it = {"t": "bridge", "tree": tree,
                       "name": None if rng.chance(0.4) else f"csr{depth}_{i}", "addr_sel": None}
             else:
